@@ -14,7 +14,7 @@ CHECKS = {
              "pre-states, through explicit Enqueue/Drain/Reserve/Commit actions, and proves the committed outcome equals a declarative oracle of the candidate SET (canonical greedy "
              "admission; post = pre patched by exactly the accepted effects evaluated at pre). Every behaviour is replayed into a real Engine (Radix/Legacy x 1/4 workers): receipt order, "
              "dispositions, blockers, post-state and patch replay must equal the oracle, and within each (pre-state, candidate set) group state root, patch digest, commit id, "
-             "plan/decision/rewrites digests and receipt digest must be bit-identical. Several id salts explore several canonical key orders.",
+             "plan/decision/rewrites digests and receipt digest must be bit-identical. Several id salts explore several canonical key orders. Quick replays every exported behaviour; thorough model-checks 3.2 M states per salt and replays whole permutation groups selected by a fixed hash rule (about 50 000 behaviours per salt, recorded in evidence as replay_sampling).",
         note="Bounded model (pre-states, candidate universe, sequence length); table-driven rules (harness/src/programs.rs) mirror spec/Tick.tla Prog; scope-hash order supplied by the harness; batch sizes beyond the 1024 threshold are covered by the C03 drain-order traces.",
         design="3 C01"),
     "C02": dict(
